@@ -1,6 +1,7 @@
 import IxpeVerif.Num
 import IxpeVerif.Model.Livetime
 import IxpeVerif.Model.EventList
+import IxpeVerif.Gen.Formulas
 /-! Dispatcher of the hand-written models for the line-protocol driver.  Integers travel in decimal. -/
 namespace Driver
 
@@ -12,6 +13,15 @@ def takeN (ws : List String) : List String × List String :=
   match ws with
   | n :: rest => (rest.take n.toNat!, rest.drop n.toNat!)
   | [] => ([], [])
+
+def fbits (i : Int) : Float := Float.ofBits i.toNat.toUInt64
+
+/-- rows with detector coordinates (as float bit patterns): the fiducial flag is the *generated*
+`within_fiducial_rectangle` evaluated on Float -/
+def rowsOfF (hx hy : Float) : List Int → List EvL.Row
+  | t :: s :: x :: y :: g :: rest =>
+    ⟨t, s, decide (Gen.within_fiducial_rectangle (fbits x) (fbits y) hx hy > 0.5), g.toNat⟩ :: rowsOfF hx hy rest
+  | _ => []
 
 def rowsOf : List Int → List EvL.Row
   | t :: s :: f :: g :: rest => ⟨t, s, f != 0, g.toNat⟩ :: rowsOf rest
@@ -30,6 +40,15 @@ def step (ws : List String) : String :=
     let (rows, _) := takeN rest
     let out := EvL.finalize s0.toInt! dead.toInt! (ints starts) (rowsOf (ints rows))
     showInts (out.flatMap fun o => [(o.row.tag : Int), o.livetime, (o.trg : Int)])
+  -- finalizef <s0> <dead> <n> starts… <hx> <hy> <5m> (time src detx dety tag)…
+  | "finalizef" :: s0 :: dead :: rest =>
+    let (starts, rest) := takeN rest
+    match rest with
+    | hx :: hy :: rest =>
+      let (rows, _) := takeN rest
+      let out := EvL.finalize s0.toInt! dead.toInt! (ints starts) (rowsOfF (fbits hx.toInt!) (fbits hy.toInt!) (ints rows))
+      showInts (out.flatMap fun o => [(o.row.tag : Int), o.livetime, (o.trg : Int)])
+    | _ => "bad-op"
   | ["split", t] => let r := EvL.splitTime t.toInt!; showInts [r.1, r.2]
   | _ => "bad-op"
 
